@@ -74,6 +74,8 @@ CastObj(target, t) ==
     [] OTHER -> OOD
 
 IvalOK(n, unit) == unit \in IvalUnits
+\* the type table of the connection: the first five constants of the "_t" account forms
+Types(c) == SubSeq(c, 1, 5)
 
 Apply(f, c, v) ==
   CASE f = "date_trunc" -> IF c[1] \in TruncUnitSet THEN D(DateTrunc(c[1], v[1])) ELSE N
@@ -111,6 +113,16 @@ Apply(f, c, v) ==
     [] f = "leaf"       -> OptS(Leaf(v[1]))
     [] f = "account_sortkey" -> IF KnownRoot(v[1]) THEN S(SortKey(v[1])) ELSE OOD
     [] f = "possign"    -> IF KnownRoot(v[2]) THEN Q(PosSign(v[1], v[2])) ELSE OOD
+    \* the same on a connection to a ledger whose options name the five root types c[1..5] (assets, liabilities,
+    \* equity, income, expenses); possign_tk: the account is a literal of the statement (c[6]); possign_amt / _pos /
+    \* _inv: the overloads for an amount, a position and an inventory of one currency (the number is observed)
+    [] f = "account_sortkey_t" -> IF TypeTableOK(Types(c)) /\ KnownRootT(Types(c), v[1])
+                                  THEN S(SortKeyT(Types(c), v[1])) ELSE OOD
+    [] f \in {"possign_t", "possign_amt", "possign_pos", "possign_inv"}
+                        -> IF TypeTableOK(Types(c)) /\ KnownRootT(Types(c), v[2])
+                           THEN Q(PosSignT(Types(c), v[1], v[2])) ELSE OOD
+    [] f = "possign_tk" -> IF TypeTableOK(Types(c)) /\ KnownRootT(Types(c), c[6])
+                           THEN Q(PosSignT(Types(c), v[1], c[6])) ELSE OOD
     \* strings
     [] f = "upper"      -> S(Upper(v[1]))
     [] f = "lower"      -> S(Lower(v[1]))
